@@ -3847,11 +3847,38 @@ class OpAlignPartitions(MaybeAlignPartitions):
         dfs = self.args
         if (
             len(dfs) == 1
-            or all(dfs[0].divisions == df.divisions for df in dfs)
+            or all(
+                dfs[0].divisions == df.divisions and df.known_divisions for df in dfs
+            )
             or len(self.divisions) == 2
             and max(map(lambda x: len(x.divisions), dfs)) == 2
         ):
             return self._op(self.frame, self.op, self.other, *self.operands[3:])
+        elif self.divisions[0] is None:
+            # Unknown divisions: the partitions can only be aligned by shuffling
+            # on the index, like the other *Align expressions do
+            npartitions = max(df.npartitions for df in dfs)
+            dtypes = {df._meta.index.dtype for df in dfs}
+            if not _are_dtypes_shuffle_compatible(dtypes):
+                raise TypeError(
+                    "DataFrames are not aligned. We need to shuffle to align partitions "
+                    "with each other. This is not possible because the indexes of the "
+                    f"DataFrames have differing dtypes={dtypes}. Please ensure that "
+                    "all Indexes have the same dtype or align manually for this to "
+                    "work."
+                )
+
+            from dask.dataframe.dask_expr._shuffle import RearrangeByColumn
+
+            frame, other = (
+                (
+                    RearrangeByColumn(df, None, npartitions, index_shuffle=True)
+                    if any(df is x for x in dfs)
+                    else df
+                )
+                for df in (self.frame, self.other)
+            )
+            return self._op(frame, self.op, other, *self.operands[3:])
 
         from dask.dataframe.dask_expr._repartition import RepartitionDivisions
 
